@@ -135,9 +135,15 @@ namespace link_layer {
         read_buffer allocate_ll_transmit_buffer( std::size_t size );
         void commit_l2cap_transmit_buffer( read_buffer buffer );
         void commit_ll_transmit_buffer( read_buffer buffer );
-        write_buffer next_ll_l2cap_received() const;
+        write_buffer next_ll_l2cap_received();
         void free_ll_l2cap_received();
+
+        using layout = typename BufferedRadio::layout;
     private:
+        static constexpr std::uint16_t  pdu_type_mask           = 0x0003;
+        static constexpr std::uint16_t  pdu_type_link_layer     = 0x0003;
+        static constexpr std::uint16_t  pdu_type_start          = 0x0002;
+
         static constexpr std::size_t    header_size             = BufferedRadio::header_size;
         static constexpr std::size_t    layout_overhead         = BufferedRadio::layout_overhead;
         static constexpr std::size_t    l2cap_header_size       = 4u;
@@ -352,9 +358,31 @@ namespace link_layer {
     }
 
     template < class BufferedRadio, class ReceiveCallbacks >
-    write_buffer ll_l2cap_sdu_buffer< BufferedRadio, ReceiveCallbacks, bluetoe::details::default_att_mtu_size >::next_ll_l2cap_received() const
+    write_buffer ll_l2cap_sdu_buffer< BufferedRadio, ReceiveCallbacks, bluetoe::details::default_att_mtu_size >::next_ll_l2cap_received()
     {
-        return this->next_received();
+        for ( auto pdu = this->next_received(); pdu.size; pdu = this->next_received() )
+        {
+            const std::uint16_t type = layout::header( pdu ) & pdu_type_mask;
+
+            if ( type == pdu_type_link_layer )
+                return pdu;
+
+            // without reassembling, only complete, unfragmented L2CAP SDUs can be handed to the L2CAP layer
+            if ( type == pdu_type_start )
+            {
+                const auto          body      = layout::body( pdu );
+                const std::size_t   body_size = body.second - body.first;
+
+                if ( body_size >= l2cap_header_size
+                  && bluetoe::details::read_16bit( body.first ) + l2cap_header_size == body_size )
+                    return pdu;
+            }
+
+            // fragments are silently discarded
+            this->free_received();
+        }
+
+        return { nullptr, 0 };
     }
 
     template < class BufferedRadio, class ReceiveCallbacks >
